@@ -37,8 +37,9 @@ the excluded case), `s = bdd.to_expr(f)` succeeds without changing anything and
 `g = bdd.add_expr(s)` returns a NEW `Function` `h` ON THE SAME NODE `u` (`g == f`); the
 invariant of the wrapper (count equation included) holds after the call, no other `Function`
 is touched, and every live `Function` keeps its meaning by name.  Both with reordering off
-(`off = true`) and enabled (`off = false`). -/
-theorem C05_autoref_addExpr_toExpr (a : AMgr) (hi : AInv off a) (ju h : Nat) (u : Int)
+(`off = true`) and enabled (`off = false`; then with two declared variables, `Two`: with fewer a
+fired request ends in the `ValueError` of sifting, an outcome of `C08_ops_dyn_total`). -/
+theorem C05_autoref_addExpr_toExpr (a : AMgr) (hi : AInv off a) (ht : Two off a) (ju h : Nat) (u : Int)
     (hu : a.handles[ju]? = some u) (hf : a.handles.contains h = false)
     (hn : lexableSupport a.m.tbl u) :
     ∃ s a', aToExpr ju a = (.ok s, a) ∧ aAddExpr s h a = (.ok u, a') ∧
@@ -56,7 +57,7 @@ theorem C05_autoref_addExpr_toExpr (a : AMgr) (hi : AInv off a) (ju h : Nat) (u 
     intro w hw
     rw [TE_atNodes hte] at hw
     cases hw
-  obtain ⟨r, a', he, hr, hdoc, hi', hoth, hkeep⟩ := aAddExpr_value a hi s t h hf hp hM hat
+  obtain ⟨r, a', he, hr, hdoc, hi', hoth, hkeep⟩ := aAddExpr_value a hi ht s t h hf hp hM hat
   obtain ⟨hum, hud⟩ := hkeep ju u hu
   have hru : r = u := by
     apply (canonical a'.m.tbl hi'.inv.wf r u hdoc.1 hum).mp
@@ -84,13 +85,13 @@ theorem lexableSupport_of_check {tb : Tbl} (h : (tb.l2v.toList.all fun p => name
 
 example : ∃ s a', aToExpr 2 nvA4 = (.ok s, nvA4) ∧ aAddExpr s 3 nvA4 = (.ok (-4), a') ∧
     a'.handles[(3 : Nat)]? = some (-4) ∧ AInv true a' := by
-  obtain ⟨s, a', h1, h2, h3, -, h5, -⟩ := C05_autoref_addExpr_toExpr nvA4 nvA4_inv 2 3 (-4) nvA4_h2
+  obtain ⟨s, a', h1, h2, h3, -, h5, -⟩ := C05_autoref_addExpr_toExpr nvA4 nvA4_inv (fun h => nomatch h) 2 3 (-4) nvA4_h2
     nvA4_f3 (lexableSupport_of_check (by decide +kernel) _)
   exact ⟨s, a', h1, h2, h3, h5⟩
 
 example : ∃ s a', aToExpr 2 nvD = (.ok s, nvD) ∧ aAddExpr s 3 nvD = (.ok (-4), a') ∧
     a'.handles[(3 : Nat)]? = some (-4) ∧ AInv false a' := by
-  obtain ⟨s, a', h1, h2, h3, -, h5, -⟩ := C05_autoref_addExpr_toExpr nvD nvD_inv 2 3 (-4) nvD_h2
+  obtain ⟨s, a', h1, h2, h3, -, h5, -⟩ := C05_autoref_addExpr_toExpr nvD nvD_inv (fun _ => by decide +kernel) 2 3 (-4) nvD_h2
     nvD_f3 (lexableSupport_of_check (by decide +kernel) _)
   exact ⟨s, a', h1, h2, h3, h5⟩
 
